@@ -33,3 +33,12 @@ GENERATORS.append(("T5 exception classes", t5_errors.generate))
 
 from . import t7_format  # noqa: E402  T7: pint/delegates/formatter/*.py -> Gen/FormatParams.v
 GENERATORS.append(("T7 format parameters", t7_format.generate))
+
+from . import t4_converters  # noqa: E402  T4: converter classes -> Gen/Converters.v
+GENERATORS.append(("T4 converter formulas", t4_converters.generate))
+
+from . import t2_eval  # noqa: E402  T2: pint/pint_eval.py operator tables + static call scan -> Gen/EvalTables.v
+GENERATORS.append(("T2 evaluator tables", t2_eval.generate))
+
+from . import t_standards  # noqa: E402  data/standards.tsv (hand-curated, C20) -> Gen/Standards.v
+GENERATORS.append(("standards table", t_standards.generate))
